@@ -2,4 +2,5 @@ let () =
   match Sys.argv with
   | [| _; "num" |] -> Run_num.run ()
   | [| _; "kv" |] -> Run_kv.run ()
+  | [| _; "app" |] -> Run_app.run ()
   | _ -> prerr_endline "usage: modelrun <engine> < ops"; exit 2
